@@ -338,37 +338,125 @@ theorem lemma_splitComma_no_comma (s cur : Bytes) (hcur : ',' ∉ cur) :
         · exact hc (by simp [← h])
         · exact hcur h) p hp
 
+theorem lemma_stripPrefix_some (p s r : Bytes) (h : stripPrefix p s = some r) : s = p ++ r := by
+  induction p generalizing s with
+  | nil => simp [stripPrefix] at h; simp [h]
+  | cons a p ih =>
+    cases s with
+    | nil => simp [stripPrefix] at h
+    | cons c s =>
+      simp only [stripPrefix] at h
+      split at h
+      · rename_i hac
+        have : a = c := by simpa using hac
+        subst this
+        simp [ih s h]
+      · simp at h
+
+theorem lemma_stripOne_some (ps : List Bytes) (s r : Bytes) (h : stripOne ps s = some r) :
+    ∃ p ∈ ps, s = p ++ r := by
+  induction ps with
+  | nil => simp [stripOne] at h
+  | cons p ps ih =>
+    simp only [stripOne] at h
+    match hp : stripPrefix p s with
+    | some r' =>
+      simp only [hp, Option.some.injEq] at h
+      subst h
+      exact ⟨p, by simp, lemma_stripPrefix_some p s r' hp⟩
+    | none =>
+      simp only [hp] at h
+      obtain ⟨q, hq, e⟩ := ih h
+      exact ⟨q, by simp [hq], e⟩
+
+/-- what `trimWith` returns is a suffix of its input: no byte is invented or reordered -/
+theorem lemma_trimWith_suffix (pats : List Bytes) (n : Nat) (s : Bytes) :
+    ∃ pre, s = pre ++ trimWith pats n s := by
+  induction n generalizing s with
+  | zero => exact ⟨[], by simp [trimWith]⟩
+  | succ n ih =>
+    simp only [trimWith]
+    match h : stripOne pats s with
+    | none => exact ⟨[], by simp⟩
+    | some r =>
+      obtain ⟨p, _, e⟩ := lemma_stripOne_some pats s r h
+      obtain ⟨pre, e2⟩ := ih r
+      exact ⟨p ++ pre, by rw [e]; simp only []; rw [List.append_assoc, ← e2]⟩
+
+/-- **fuel adequacy**: with fuel ≥ length (what `trimLeft`/`trimRight` pass) the result has no strippable
+    prefix left — the fuel never cuts the trim short -/
+theorem lemma_trimWith_fixed (pats : List Bytes) (hne : ∀ p ∈ pats, p ≠ []) (n : Nat) (s : Bytes)
+    (hn : s.length ≤ n) : stripOne pats (trimWith pats n s) = none := by
+  induction n generalizing s with
+  | zero =>
+    have : s = [] := by cases s with | nil => rfl | cons _ _ => simp at hn
+    subst this
+    simp only [trimWith]
+    match h : stripOne pats [] with
+    | none => rfl
+    | some r =>
+      obtain ⟨p, hp, e⟩ := lemma_stripOne_some pats [] r h
+      have : p = [] := by
+        cases p with | nil => rfl | cons _ _ => simp at e
+      exact absurd this (hne p hp)
+  | succ n ih =>
+    simp only [trimWith]
+    match h : stripOne pats s with
+    | none => simp [h]
+    | some r =>
+      simp only []
+      obtain ⟨p, hp, e⟩ := lemma_stripOne_some pats s r h
+      have hpl : 0 < p.length := by
+        cases p with | nil => exact absurd rfl (hne [] hp) | cons _ _ => simp
+      apply ih
+      have : s.length = p.length + r.length := by rw [e]; simp
+      omega
+
+theorem lemma_spacePats_ne : ∀ p ∈ spacePats, p ≠ [] := by decide
+theorem lemma_spacePatsRev_ne : ∀ p ∈ spacePats.map List.reverse, p ≠ [] := by decide
+
 theorem lemma_trimLeft_sub (s : Bytes) : ∀ c ∈ trimLeft s, c ∈ s := by
-  induction s with
-  | nil => simp [trimLeft]
-  | cons a as ih =>
-    intro c hc
-    simp only [trimLeft] at hc
-    split at hc
-    · exact List.mem_cons_of_mem _ (ih c hc)
-    · exact hc
+  intro c hc
+  obtain ⟨pre, e⟩ := lemma_trimWith_suffix spacePats s.length s
+  unfold trimLeft at hc
+  rw [e]; simp [hc]
+
+theorem lemma_trimRight_sub (s : Bytes) : ∀ c ∈ trimRight s, c ∈ s := by
+  intro c hc
+  obtain ⟨pre, e⟩ := lemma_trimWith_suffix (spacePats.map List.reverse) s.length s.reverse
+  unfold trimRight at hc
+  have : c ∈ s.reverse := by rw [e]; simp [List.mem_reverse.mp hc]
+  simpa using this
 
 theorem lemma_trim_sub (s : Bytes) : ∀ c ∈ trim s, c ∈ s := by
   intro c hc
-  simp only [trim, List.mem_reverse] at hc
-  have := lemma_trimLeft_sub _ c hc
-  simp only [List.mem_reverse] at this
-  exact lemma_trimLeft_sub _ c this
+  exact lemma_trimLeft_sub s c (lemma_trimRight_sub _ c hc)
 
-theorem lemma_trimLeft_head (s : Bytes) : ∀ c rest, trimLeft s = c :: rest → isSpace c = false := by
-  induction s with
-  | nil => simp [trimLeft]
-  | cons a as ih =>
-    intro c rest h
-    simp only [trimLeft] at h
-    split at h
-    · exact ih c rest h
-    · rename_i hs
-      cases h
-      simpa using hs
+/-- after the trim the string neither begins nor ends with a white-space rune -/
+theorem trim_is_fixed (s : Bytes) :
+    stripOne (spacePats.map List.reverse) (trim s).reverse = none := by
+  unfold trim trimRight
+  simp only [List.reverse_reverse]
+  exact lemma_trimWith_fixed _ lemma_spacePatsRev_ne _ _ (by simp)
+
+theorem trimLeft_is_fixed (s : Bytes) : stripOne spacePats (trimLeft s) = none :=
+  lemma_trimWith_fixed _ lemma_spacePats_ne _ _ (Nat.le_refl _)
+
+theorem lemma_no_space_head (t : Bytes) (h : stripOne (spacePats.map List.reverse) t = none) :
+    ∀ c rest, t = c :: rest → isSpace c = false := by
+  intro c rest e
+  subst e
+  cases hc : isSpace c with
+  | false => rfl
+  | true =>
+    exfalso
+    have hc' : ((((c = ' ' ∨ c = '\t') ∨ c = '\n') ∨ c = '\x0b') ∨ c = '\x0c') ∨ c = '\r' := by
+      simpa [isSpace] using hc
+    rcases hc' with ((((rfl | rfl) | rfl) | rfl) | rfl) | rfl <;>
+      simp [spacePats, stripOne, stripPrefix] at h
 
 /-- **`splitAndTrim` yields clean candidates.** Every item handed to `parseOneIP` is non-empty,
-    contains no comma and carries no ASCII white space at its right end; and no byte is invented
+    contains no comma and does not end in a white-space rune (`trim_is_fixed`; here: not in ASCII white space); and no byte is invented
     (each byte of an item is a byte of the header). -/
 theorem splitAndTrim_items_clean (s : Bytes) :
     ∀ p ∈ splitAndTrim s, p ≠ [] ∧ ',' ∉ p ∧ (∀ c ∈ p, c ∈ s) ∧
@@ -402,8 +490,7 @@ theorem splitAndTrim_items_clean (s : Bytes) :
     · intro hm; exact hnc (lemma_trim_sub q _ hm)
     · intro c hc; exact hsub c (lemma_trim_sub q c hc)
     · intro c rest h
-      simp only [trim, List.reverse_reverse] at h
-      exact lemma_trimLeft_head _ c rest h
+      exact lemma_no_space_head _ (trim_is_fixed q) c rest h
 
 /-- **Non-interference on the raw request.** With an untrusted peer the answer is the peer address
     for every header text whatsoever (whenever the case's `net` table covers the items). -/
